@@ -328,6 +328,12 @@ YR_API void yr_compiler_destroy(YR_COMPILER* compiler)
   for (int i = 0; i < compiler->file_name_stack_ptr; i++)
     yr_free(compiler->file_name_stack[i]);
 
+  // A parse aborted inside a "for" loop (out of memory) leaves the loop
+  // open, its variables still own their identifiers.
+  for (int i = 0; i <= compiler->loop_index; i++)
+    for (int j = 0; j < compiler->loop[i].vars_count; j++)
+      yr_free((void*) compiler->loop[i].vars[j].identifier.ptr);
+
   YR_FIXUP* fixup = compiler->fixup_stack_head;
 
   while (fixup != NULL)
